@@ -1,7 +1,7 @@
 (** C12 — malformed AML is rejected with an error, never a crash, hang or stray pointer.
     Statements only; every proof is [exact <lemma>] (Aml/LexProofs.v). *)
 From Coq Require Import NArith List.
-From FF Require Import Lib.Word Gen.Consts_device_acpi_aml Aml.Stream Aml.Lex Aml.LexProofs Aml.Tree Aml.TreeSpec Aml.Parser Aml.ParserProofs Aml.ParserProofsTop Aml.ParserTotalFirst.
+From FF Require Import Lib.Word Gen.Consts_device_acpi_aml Aml.Stream Aml.Lex Aml.LexProofs Aml.Tree Aml.TreeSpec Aml.Parser Aml.ParserProofs Aml.ParserProofsTop Aml.ParserTotalFirst Aml.ParserTotalConn Aml.ParserTotalTop.
 Import ListNotations.
 Local Open Scope N_scope.
 
@@ -38,8 +38,9 @@ Print Assumptions C12_lex_slices_inside.
 (** ---- the whole parser (Aml/Parser.v: every pass of ParseAML) ---- *)
 
 (** [parse_total], the FULL statement of C12 over the model.  [load payloads] creates the default scopes and
-    runs ParseAML on the images (36-byte header + payload) one after the other with fuel [parse_fuel] = 64 + 8 * length,
-    linear in the input; class 0 = success, 1 = errParsingAML, 2 = Go panic, 3 = fuel exhausted.
+    runs ParseAML on the images (36-byte header + payload) one after the other with fuel [parse_fuel] = 64 + 8 * (length of
+    the table + number of pool slots), linear in the input so far (the later passes walk the whole tree, including the
+    objects of the tables loaded before); class 0 = success, 1 = errParsingAML, 2 = Go panic, 3 = fuel exhausted.
     For every sequence of byte strings: the outcome is success or the parse error, every []byte the pool refers to
     lies inside the image it aliases, and the pool is a well-formed tree (C13's relation [R] for some forest). *)
 Definition C12_full_parse_total : Prop :=
@@ -116,23 +117,92 @@ Theorem C12_parse_total_partial_R_first_pass :
 Proof. exact first_pass_R. Qed.
 Print Assumptions C12_parse_total_partial_R_first_pass.
 
-(** [parse_total_partial] (5), fuel: in any state that satisfies the invariant of the first pass (spelled out: [R],
-    opcode-table indexes valid, reader invariant, table below 4 GiB - 256 MiB - 1 KiB, offset inside the table, skip
-    mode, live scope stack, room for the objects) parsing one object (parseNextObject, with everything below it) and the
-    inner loop of parseObjectList (objects up to the end of the current package) return - neither a panic nor exhausted
-    fuel - as soon as the fuel is 16 units per byte left in the table plus 3: every level of recursion and every loop
-    iteration is paid for by a consumed byte (the lexer functions, layer 2, need no fuel argument at all:
-    [C12_reader_safe]).  Not covered: the outer loop of parseObjectList (one iteration per entry of the pkgEnd stack;
-    it terminates only if the scope stack is never deeper than the pkgEnd stack, which is not proved here). *)
+(** [parse_total_partial] (5), termination of the first pass: under the same hypotheses the first pass RETURNS - neither
+    a panic nor exhausted fuel - as soon as the fuel is 8 units per byte of the table plus 5 (so in particular with the
+    fuel ParseAML gives it, [parse_fuel] = 64 + 8 * (length of the table + pool slots)), and the pool it returns satisfies
+    [R].  Every level of recursion and every loop iteration below parseObjectList is paid for by a consumed byte, and the
+    outer loop of parseObjectList pops one package end per iteration: the scope stack is never deeper than the pkgEnd
+    stack (in the opcode-table row of every opcode that nextOpcode accepts a TermList argument is preceded by a PkgLen
+    argument - checked by computation over the table dumped from /repo - so a scope is only entered after its package
+    end was pushed), and every push is paid for by a consumed byte.  (This is the loop that spins forever when the two
+    stacks get out of step.)  The lexer functions, layer 2, need no fuel argument at all: [C12_reader_safe]. *)
 Theorem C12_parse_total_partial_fuel_first_pass :
+  forall (tree : ObjectTree value) (g : ghost) (earlier : list (list N)) (handle : N) (data : list N) (fuel : nat),
+    R tree g ->
+    (forall i o, TreeSpec.get tree i = Some o -> o_opcode o <> opFreed -> opInfo (o_infoIndex o) <> None) ->
+    glive g 0 ->
+    Forall (fun b => b < 256) data -> N.of_nat (length data) + 0x10000400 <= two32 ->
+    N.of_nat (length (t_pool tree)) + 4 * N.of_nat (length data) + 4 <= InvalidIndex ->
+    8 * N.of_nat (length data) + 5 <= N.of_nat fuel ->
+    exists res s' g',
+      (scopeEnter 0 ;;; parseObjectList fuel) (init_state tree earlier handle data) = Ok (res, s') /\ R (p_tree s') g'.
+Proof. exact first_pass_terminates. Qed.
+Print Assumptions C12_parse_total_partial_fuel_first_pass.
+
+(** the same below the outer loop, from ANY state that satisfies the invariant of the first pass (spelled out: [R],
+    opcode-table indexes valid, reader invariant, table below 4 GiB - 256 MiB - 1 KiB, offset inside the table, skip
+    mode, live non-empty scope stack, room for the objects): parsing one object (parseNextObject with everything below
+    it) and the inner loop of parseObjectList return as soon as the fuel is 8 units per byte left in the table plus 3. *)
+Theorem C12_parse_total_partial_fuel_object :
   forall (fuel : nat) (s : pstate) (g : ghost),
     R (p_tree s) g ->
     (forall i o, TreeSpec.get (p_tree s) i = Some o -> o_opcode o <> opFreed -> opInfo (o_infoIndex o) <> None) ->
     reader_wf (p_r s) -> r_len (p_r s) + 0x10000400 <= two32 -> r_offset (p_r s) <= r_len (p_r s) ->
     p_allBlocks s = false -> Forall (glive g) (p_scopeStack s) -> p_scopeStack s <> [] ->
     N.of_nat (length (t_pool (p_tree s))) + 4 * (r_len (p_r s) - r_offset (p_r s)) + 4 <= InvalidIndex ->
-    16 * (r_len (p_r s) - r_offset (p_r s)) + 3 <= N.of_nat fuel ->
+    8 * (r_len (p_r s) - r_offset (p_r s)) + 3 <= N.of_nat fuel ->
     (exists res s' g', parseNextObject fuel s = Ok (res, s') /\ R (p_tree s') g') /\
     (exists ok s' g', objectList_inner fuel s = Ok (ok, s') /\ R (p_tree s') g').
 Proof. exact first_pass_fuel. Qed.
-Print Assumptions C12_parse_total_partial_fuel_first_pass.
+Print Assumptions C12_parse_total_partial_fuel_object.
+
+(** ---- connectNamedObjArgs ---- *)
+
+(** [parse_total_partial] (6), passes covered: connectNamedObjArgs with connectNamed's inner loop, setNameFrom and
+    attachSiblingsAsArgs (detach + append of following siblings below a named object).  From ANY parser state whose pool
+    satisfies C13's [R], whose live objects carry opcode-table indexes inside pOpcodeTable and whose []byte values lie
+    inside their tables ([pool_ok], the invariant of [C12_parse_total_partial_slices]), and for any live start object:
+    the pass never panics - no nil dereference (ObjectAt of child / first-arg / sibling / parent links), no index
+    outside pOpcodeTable, no read outside the table in copying the name (bytesOf), no short name (.name[:] of a path
+    shorter than 4 bytes), no illegal detach / append - and when it returns the pool again satisfies [R] and both
+    other invariants.  The forest is rearranged only inside the subtree of the start object: a sibling that is moved
+    below the named object is never an ancestor of it (siblings are not descendants of each other).  Fuel exhaustion
+    is not excluded here. *)
+Theorem C12_parse_total_partial_nopanic_connectNamedObjArgs :
+  forall (fuel : nat) (x : N) (s : pstate) (g : ghost),
+    R (p_tree s) g ->
+    (forall i o, TreeSpec.get (p_tree s) i = Some o -> o_opcode o <> opFreed -> opInfo (o_infoIndex o) <> None) ->
+    pool_ok (p_tables s) (p_tree s) -> glive g x ->
+    match connectNamedObjArgs fuel x s with
+    | Ok (_, s') => exists g', R (p_tree s') g' /\
+        (forall i o, TreeSpec.get (p_tree s') i = Some o -> o_opcode o <> opFreed -> opInfo (o_infoIndex o) <> None) /\
+        pool_ok (p_tables s') (p_tree s')
+    | Panic => False
+    | OutOfFuel => True
+    end.
+Proof. exact connectNamedObjArgs_never_panics. Qed.
+Print Assumptions C12_parse_total_partial_nopanic_connectNamedObjArgs.
+
+(** [parse_total_partial] (7), passes covered: the first pass AND connectNamedObjArgs as ParseAML chains them (the prefix
+    of parseAML_body up to and including connectNamedObjArgs(0)), from the initial state of any table image over any
+    pool satisfying the invariants: never a panic; the returned pool satisfies [R], has valid opcode-table indexes and
+    all its []byte values inside the tables loaded so far.  Not covered: mergeScopeDirectives / relocateNamedObjects,
+    parseDeferredBlocks, resolveMethodCalls, connectNonNamedObjArgs. *)
+Theorem C12_parse_total_partial_nopanic_first_pass_connectNamedObjArgs :
+  forall (tree : ObjectTree value) (g : ghost) (earlier : list (list N)) (handle : N) (data : list N) (fuel : nat),
+    R tree g ->
+    (forall i o, TreeSpec.get tree i = Some o -> o_opcode o <> opFreed -> opInfo (o_infoIndex o) <> None) ->
+    glive g 0 -> pool_ok earlier tree ->
+    Forall (fun b => b < 256) data -> N.of_nat (length data) + 0x10000400 <= two32 ->
+    N.of_nat (length (t_pool tree)) + 4 * N.of_nat (length data) + 4 <= InvalidIndex ->
+    match (scopeEnter 0 ;;;
+           mlet r1 <~ parseObjectList fuel ;;
+           if pres_eqb r1 RFailed then ret RFailed else connectNamedObjArgs fuel 0) (init_state tree earlier handle data) with
+    | Ok (_, s') => exists g', R (p_tree s') g' /\
+        (forall i o, TreeSpec.get (p_tree s') i = Some o -> o_opcode o <> opFreed -> opInfo (o_infoIndex o) <> None) /\
+        pool_ok (earlier ++ [data]) (p_tree s')
+    | Panic => False
+    | OutOfFuel => True
+    end.
+Proof. exact passes12_never_panic. Qed.
+Print Assumptions C12_parse_total_partial_nopanic_first_pass_connectNamedObjArgs.
